@@ -238,3 +238,7 @@ mod tests {
         assert_eq!(format!("{a}"), "  5.0000000000\n  6.0000000000");
     }
 }
+
+#[cfg(feature = "pendulum_project_ntpd_rs_verif")]
+#[path = "/verif/hooks/ntp-proto/algorithm_kalman_matrix.rs"]
+pub mod verif_hooks;
